@@ -192,9 +192,21 @@ func (b *errBody) Read(p []byte) (int, error) {
 }
 func (b *errBody) Close() error { return nil }
 
-type zeroBody struct{ left int64 }
+type zeroBody struct {
+	prefix []byte // sent first (counts towards the total)
+	left   int64
+}
 
 func (z *zeroBody) Read(p []byte) (int, error) {
+	if len(z.prefix) > 0 && z.left > 0 {
+		n := copy(p, z.prefix)
+		if int64(n) > z.left {
+			n = int(z.left)
+		}
+		z.prefix = z.prefix[n:]
+		z.left -= int64(n)
+		return n, nil
+	}
 	if z.left <= 0 {
 		return 0, io.EOF
 	}
@@ -219,8 +231,18 @@ func (s *Sim) RoundTrip(hr *http.Request) (resp *http.Response, err error) {
 		hr.Body.Close()
 	}
 	s.mu.Lock()
-	h, ok := s.routes[full]
+	var h Handler
+	ok := false
 	route := full
+	if hr.URL.RawQuery != "" {
+		// a route registered with its query string wins
+		route = full + "?" + hr.URL.RawQuery
+		h, ok = s.routes[route]
+	}
+	if !ok {
+		h, ok = s.routes[full]
+		route = full
+	}
 	if !ok {
 		h, ok = s.routes[host]
 		route = host
@@ -301,7 +323,7 @@ func (s *Sim) RoundTrip(hr *http.Request) (resp *http.Response, err error) {
 	var rc io.ReadCloser
 	switch {
 	case rep.Stream > 0:
-		rc = &zeroBody{left: rep.Stream}
+		rc = &zeroBody{prefix: append([]byte{}, rep.Body...), left: rep.Stream}
 	case rep.BodyErrAt > 0:
 		rc = &errBody{data: rep.Body, at: rep.BodyErrAt}
 	default:
